@@ -26,22 +26,43 @@ theorem final_append (cur : Fs) (a b : Trace) : final cur (a ++ b) = final (fina
   | nil => simp [final_nil]
   | cons e a ih => simp only [List.cons_append, final_cons, ih]
 
-/-- Everything proved about one run of the in-place operation list (or a suffix of it) that started
-    in directory `fs0` and is currently in `cur`. -/
-structure Post (fs0 : Fs) (src tmp new : String) (cfg : Cfg) (plan : Plan) (cur : Fs)
-    (r : Outcome × Trace) : Prop where
-  shape : ∀ ev ∈ r.2, AB fs0 tmp ev.2 ∨ (ev.1 = "replace" ∧ ev.2 = fs0.set src new)
-  ok : r.1 = .ok → final cur r.2 = fs0.set src new
-  raised : ∀ j, r.1 = .raised j → cfg.cleanupWrite = true → plan (j + 1) ≠ .raise → final cur r.2 = fs0
-  killed : ∀ j, r.1 = .killed j → AB fs0 tmp (final cur r.2)
-  raisedAt : ∀ j, r.1 = .raised j → plan j = .raise
+theorem closeIn_label : Op.closeIn.label ++ "!" = "closeIn!" := by decide +kernel
 
-variable {fs0 : Fs} {src tmp new : String} {cfg : Cfg} {plan : Plan}
+/-- No operation is labelled like the failed clean-up. -/
+theorem Op.label_ne_rm (op : Op) : op.label ≠ "removeTemp!" := by
+  cases op <;> simp only [Op.label] <;> decide
+theorem Op.labelBang_ne_rm (op : Op) : op.label ++ "!" ≠ "removeTemp!" := by
+  cases op <;> simp only [Op.label] <;> decide
+
+/-- Operations `k` and `k+1` both raise (an Exception or a BaseException). -/
+def TwoFaults (plan : Plan) (k : Nat) : Prop :=
+  (plan k = .raise ∨ plan k = .raiseBase) ∧ (plan (k + 1) = .raise ∨ plan (k + 1) = .raiseBase)
+
+/-- Everything proved about one run of the in-place operation list (or a suffix of it) that started
+    in directory `fs0` and is currently in `cur`. `dst` is the entry `os.replace` lands on.
+    * `raisedAB`: HOWEVER the run came to raise (whatever the `except` arrangement `cfg`) the directory is
+      the original one or the original one plus the temp entry;
+    * `raised`: for the code as it is now (all three arrangements of `cfg` on) it is exactly the original
+      one whenever the clean-up itself did not fail (no `removeTemp!` event) — whether the error was an
+      Exception or a BaseException, whichever operation failed. -/
+structure Post (fs0 : Fs) (dst tmp new : String) (cfg : Cfg) (plan : Plan) (cur : Fs)
+    (r : Outcome × Trace) : Prop where
+  shape : ∀ ev ∈ r.2, AB fs0 tmp ev.2 ∨ (ev.1 = "replace" ∧ ev.2 = fs0.set dst new)
+  ok : r.1 = .ok → final cur r.2 = fs0.set dst new
+  raisedAB : ∀ j, r.1 = .raised j → AB fs0 tmp (final cur r.2)
+  raised : ∀ j, r.1 = .raised j → cfg.cleanupWrite = true → cfg.cleanupBase = true → cfg.closeInTry = true →
+    (∀ ev ∈ r.2, ev.1 ≠ "removeTemp!") → final cur r.2 = fs0
+  killed : ∀ j, r.1 = .killed j → AB fs0 tmp (final cur r.2)
+  raisedAt : ∀ j, r.1 = .raised j → plan j = .raise ∨ plan j = .raiseBase
+  /-- a failed clean-up takes two adjacent faults: the operation, then the `os.remove` -/
+  rmNeeds2 : ∀ ev ∈ r.2, ev.1 = "removeTemp!" → ∃ k, TwoFaults plan k
+
+variable {fs0 : Fs} {src dst tmp new : String} {cfg : Cfg} {plan : Plan}
 
 theorem Post.cons {cur cur' : Fs} {lbl : String} {r : Outcome × Trace}
-    (h : Post fs0 src tmp new cfg plan cur' r)
-    (hev : AB fs0 tmp cur' ∨ (lbl = "replace" ∧ cur' = fs0.set src new)) :
-    Post fs0 src tmp new cfg plan cur (r.1, (lbl, cur') :: r.2) where
+    (h : Post fs0 dst tmp new cfg plan cur' r)
+    (hev : AB fs0 tmp cur' ∨ (lbl = "replace" ∧ cur' = fs0.set dst new)) (hl : lbl ≠ "removeTemp!") :
+    Post fs0 dst tmp new cfg plan cur (r.1, (lbl, cur') :: r.2) where
   shape := by
     intro ev hm
     simp only [List.mem_cons] at hm
@@ -49,23 +70,59 @@ theorem Post.cons {cur cur' : Fs} {lbl : String} {r : Outcome × Trace}
     · exact hev
     · exact h.shape ev hm
   ok := by intro ho; simp only [final_cons]; exact h.ok ho
-  raised := by intro j hj hc hp; simp only [final_cons]; exact h.raised j hj hc hp
+  raisedAB := by intro j hj; simp only [final_cons]; exact h.raisedAB j hj
+  raised := by
+    intro j hj hc hb ht hrm
+    simp only [final_cons]
+    exact h.raised j hj hc hb ht (fun ev hm => hrm ev (List.mem_cons_of_mem _ hm))
   killed := by intro j hj; simp only [final_cons]; exact h.killed j hj
   raisedAt := h.raisedAt
+  rmNeeds2 := by
+    intro ev hm he
+    simp only [List.mem_cons] at hm
+    rcases hm with rfl | hm
+    · exact absurd he hl
+    · exact h.rmNeeds2 ev hm he
 
 /-- A kill before the operation: nothing more happens. -/
 theorem Post.kill {cur : Fs} (i : Nat) (hcur : AB fs0 tmp cur) :
-    Post fs0 src tmp new cfg plan cur (.killed i, []) where
+    Post fs0 dst tmp new cfg plan cur (.killed i, []) where
   shape := by intro ev hm; simp at hm
   ok := by intro h; cases h
+  raisedAB := by intro j h; cases h
   raised := by intro j h; cases h
   killed := by intro j _; simpa [final_nil] using hcur
   raisedAt := by intro j h; cases h
+  rmNeeds2 := by intro ev hm; simp at hm
 
-/-- The `except` clauses when no temp file is bound yet: the error just propagates. -/
-theorem handler_noTemp (i : Nat) (op : Op) (st : St) (hpi : plan i = .raise) (ht : st.temp = none)
-    (hfs : st.fs = fs0) :
-    Post fs0 src tmp new cfg plan st.fs (handler cfg plan i op st) := by
+/-- A BaseException at the operation under the OLD handlers (`except Exception:`): none runs, the directory
+    stays as it is. -/
+theorem Post.base {cur : Fs} (i : Nat) (lbl : String) (hcur : AB fs0 tmp cur) (hp : plan i = .raiseBase)
+    (hb : cfg.cleanupBase = false) (hl : lbl ≠ "removeTemp!") :
+    Post fs0 dst tmp new cfg plan cur (.raised i, [(lbl, cur)]) where
+  shape := by
+    intro ev hm
+    simp only [List.mem_singleton] at hm
+    subst hm
+    exact Or.inl hcur
+  ok := by intro h; cases h
+  raisedAB := by intro j _; simpa [final] using hcur
+  raised := by
+    intro j _ _ hb' _ _
+    rw [hb] at hb'
+    cases hb'
+  killed := by intro j h; cases h
+  raisedAt := by intro j h; cases h; exact Or.inr hp
+  rmNeeds2 := by
+    intro ev hm he
+    simp only [List.mem_singleton] at hm
+    subst hm
+    exact absurd he hl
+
+/-- The clean-up clauses when no temp file is bound yet: the error just propagates. -/
+theorem handler_noTemp (i : Nat) (op : Op) (st : St) (hpi : plan i = .raise ∨ plan i = .raiseBase)
+    (ht : st.temp = none) (hfs : st.fs = fs0) :
+    Post fs0 dst tmp new cfg plan st.fs (handler cfg plan i op st) := by
   simp only [handler, ht]
   constructor
   · intro ev hm
@@ -73,16 +130,43 @@ theorem handler_noTemp (i : Nat) (op : Op) (st : St) (hpi : plan i = .raise) (ht
     subst hm
     exact Or.inl (Or.inl hfs)
   · intro h; cases h
-  · intro j _ _ _; simp [final, hfs]
+  · intro j _; exact Or.inl (by simp [final, hfs])
+  · intro j _ _ _ _ _; simp [final, hfs]
   · intro j h; cases h
   · intro j h; cases h; exact hpi
+  · intro ev hm he
+    simp only [List.mem_singleton] at hm
+    subst hm
+    exact absurd he op.labelBang_ne_rm
 
-/-- The `except` clauses while the temp file exists. -/
-theorem handler_temp (i : Nat) (op : Op) (st : St) (acc : String) (hpi : plan i = .raise)
+/-- The clean-up clauses while the temp file exists. -/
+theorem handler_temp (i : Nat) (op : Op) (st : St) (acc : String) (hpi : plan i = .raise ∨ plan i = .raiseBase)
     (h0 : fs0.get? tmp = none) (ht : st.temp = some tmp) (hfs : st.fs = fs0 ++ [(tmp, acc)]) :
-    Post fs0 src tmp new cfg plan st.fs (handler cfg plan i op st) := by
+    Post fs0 dst tmp new cfg plan st.fs (handler cfg plan i op st) := by
   have hAB : AB fs0 tmp st.fs := Or.inr ⟨acc, hfs⟩
   simp only [handler, ht]
+  by_cases hci : (op.isCloseIn && !cfg.closeInTry) = true
+  · -- the close of the source file under the OLD arrangement: outside every try
+    have hct : cfg.closeInTry = false := by
+      simp only [Bool.and_eq_true, Bool.not_eq_true'] at hci
+      exact hci.2
+    simp only [hci, if_true]
+    constructor
+    · intro ev hm
+      simp only [List.mem_singleton] at hm
+      subst hm
+      exact Or.inl hAB
+    · intro h; cases h
+    · intro j _; simpa [final] using hAB
+    · intro j _ _ _ hct' _
+      rw [hct] at hct'; cases hct'
+    · intro j h; cases h
+    · intro j h; cases h; exact hpi
+    · intro ev hm he
+      simp only [List.mem_singleton] at hm
+      subst hm
+      exact absurd he op.labelBang_ne_rm
+  simp only [hci, Bool.false_eq_true, if_false]
   by_cases hc : (op.isReplace || cfg.cleanupWrite) = true
   · simp only [hc, if_true]
     cases hp : plan (i + 1) with
@@ -94,19 +178,37 @@ theorem handler_temp (i : Nat) (op : Op) (st : St) (acc : String) (hpi : plan i 
         exact Or.inl hAB
       · intro h; cases h
       · intro j h; cases h
+      · intro j h; cases h
       · intro j _; simpa [final] using hAB
       · intro j h; cases h
+      · intro ev hm he
+        simp only [List.mem_singleton] at hm
+        subst hm
+        exact absurd he op.labelBang_ne_rm
     | raise =>
       constructor
       · intro ev hm
         simp only [List.mem_cons, List.mem_nil_iff, or_false] at hm
         rcases hm with rfl | rfl <;> exact Or.inl hAB
       · intro h; cases h
-      · intro j hj _ hne
-        cases hj
-        exact absurd hp hne
+      · intro j _; simpa [final] using hAB
+      · intro j _ _ _ _ hrm
+        exact absurd rfl (hrm ("removeTemp!", st.fs) (by simp))
       · intro j h; cases h
       · intro j h; cases h; exact hpi
+      · intro ev _ _; exact ⟨i, hpi, Or.inl hp⟩
+    | raiseBase =>
+      constructor
+      · intro ev hm
+        simp only [List.mem_cons, List.mem_nil_iff, or_false] at hm
+        rcases hm with rfl | rfl <;> exact Or.inl hAB
+      · intro h; cases h
+      · intro j _; simpa [final] using hAB
+      · intro j _ _ _ _ hrm
+        exact absurd rfl (hrm ("removeTemp!", st.fs) (by simp))
+      · intro j h; cases h
+      · intro j h; cases h; exact Or.inr hp
+      · intro ev _ _; exact ⟨i, hpi, Or.inr hp⟩
     | none =>
       have he : st.fs.erase tmp = fs0 := by rw [hfs]; exact Fs.erase_append_self h0
       constructor
@@ -116,9 +218,15 @@ theorem handler_temp (i : Nat) (op : Op) (st : St) (acc : String) (hpi : plan i 
         · exact Or.inl hAB
         · exact Or.inl (Or.inl he)
       · intro h; cases h
-      · intro j _ _ _; simp [final, he]
+      · intro j _; exact Or.inl (by simp [final, he])
+      · intro j _ _ _ _ _; simp [final, he]
       · intro j h; cases h
       · intro j h; cases h; exact hpi
+      · intro ev hm he
+        simp only [List.mem_cons, List.mem_nil_iff, or_false] at hm
+        rcases hm with rfl | rfl
+        · exact absurd he op.labelBang_ne_rm
+        · exact absurd he (show "removeTemp" ≠ "removeTemp!" by decide)
   · simp only [hc]
     have hcw : cfg.cleanupWrite = false := by
       cases hcc : cfg.cleanupWrite with
@@ -130,23 +238,83 @@ theorem handler_temp (i : Nat) (op : Op) (st : St) (acc : String) (hpi : plan i 
       subst hm
       exact Or.inl hAB
     · intro h; simp at h
-    · intro j _ hcl _; rw [hcw] at hcl; cases hcl
+    · intro j _; simpa [final] using hAB
+    · intro j _ hcl _ _ _; rw [hcw] at hcl; cases hcl
     · intro j h; simp at h
     · intro j h; simp at h; subst h; exact hpi
+    · intro ev hm he
+      simp only [Bool.false_eq_true, if_false, List.mem_singleton] at hm
+      subst hm
+      exact absurd he op.labelBang_ne_rm
 
 /-- State in the write phase: the temp holds `acc`. -/
 def wst (fs0 : Fs) (tmp acc : String) : St :=
   { fs := fs0 ++ [(tmp, acc)], target := some tmp, temp := some tmp }
 
-/-- `os.replace(temp, src)` as the last operation. -/
+/-- A BaseException at operation `i` while the temp exists: the clean-up clauses (now), or nothing (before
+    66bb5ed). -/
+theorem base_temp (i : Nat) (op : Op) (acc : String) (hp : plan i = .raiseBase) (h0 : fs0.get? tmp = none) :
+    Post fs0 dst tmp new cfg plan (wst fs0 tmp acc).fs
+      (if cfg.cleanupBase then handler cfg plan i op (wst fs0 tmp acc)
+        else (.raised i, [(op.label ++ "!", (wst fs0 tmp acc).fs)])) := by
+  cases hb : cfg.cleanupBase with
+  | true => simpa using handler_temp i op (wst fs0 tmp acc) acc (Or.inr hp) h0 rfl rfl
+  | false =>
+    simp only [Bool.false_eq_true, if_false]
+    exact Post.base i _ (Or.inr ⟨acc, rfl⟩) hp hb op.labelBang_ne_rm
+
+/-- … and before the temp exists. -/
+theorem base_noTemp (i : Nat) (op : Op) (hp : plan i = .raiseBase) :
+    Post fs0 dst tmp new cfg plan fs0
+      (if cfg.cleanupBase then handler cfg plan i op { fs := fs0 }
+        else (.raised i, [(op.label ++ "!", fs0)])) := by
+  cases hb : cfg.cleanupBase with
+  | true => simpa using handler_noTemp (fs0 := fs0) i op { fs := fs0 } (Or.inr hp) rfl rfl
+  | false =>
+    simp only [Bool.false_eq_true, if_false]
+    exact Post.base i _ (Or.inl rfl) hp hb op.labelBang_ne_rm
+
+/-- An operation without effect on the state (`fmt`, `close`, `closeIn`) while the temp exists. -/
+theorem exec_idop (op : Op) (rest : List Op) (i : Nat) (acc : String) (h0 : fs0.get? tmp = none)
+    (hid : apply op (wst fs0 tmp acc) = some (wst fs0 tmp acc))
+    (hrest : Post fs0 dst tmp new cfg plan (wst fs0 tmp acc).fs (exec cfg plan (i + 1) (wst fs0 tmp acc) rest)) :
+    Post fs0 dst tmp new cfg plan (wst fs0 tmp acc).fs (exec cfg plan i (wst fs0 tmp acc) (op :: rest)) := by
+  have hAB : AB fs0 tmp (wst fs0 tmp acc).fs := Or.inr ⟨acc, rfl⟩
+  rw [exec]
+  cases hp : plan i with
+  | kill => exact Post.kill i hAB
+  | raise => exact handler_temp i _ _ acc (Or.inl hp) h0 rfl rfl
+  | raiseBase => exact base_temp i _ acc hp h0
+  | none =>
+    simp only [hid]
+    exact Post.cons hrest (Or.inl hAB) op.label_ne_rm
+
+/-- An operation without effect on the state (`sameFile`, `openRead` of an existing file, the early
+    `closeIn`) before the temp exists. -/
+theorem exec_pre (op : Op) (rest : List Op) (i : Nat)
+    (hid : apply op { fs := fs0 } = some { fs := fs0 })
+    (hrest : Post fs0 dst tmp new cfg plan fs0 (exec cfg plan (i + 1) { fs := fs0 } rest)) :
+    Post fs0 dst tmp new cfg plan fs0 (exec cfg plan i { fs := fs0 } (op :: rest)) := by
+  have hA : AB fs0 tmp fs0 := Or.inl rfl
+  rw [exec]
+  cases hp : plan i with
+  | kill => exact Post.kill i hA
+  | raise => exact handler_noTemp i _ { fs := fs0 } (Or.inl hp) rfl rfl
+  | raiseBase => exact base_noTemp i _ hp
+  | none =>
+    simp only [hid]
+    exact Post.cons hrest (Or.inl hA) op.label_ne_rm
+
+/-- `os.replace(temp, dst)` as the last operation. -/
 theorem exec_replace (i : Nat) (acc : String) (h0 : fs0.get? tmp = none) :
-    Post fs0 src tmp acc cfg plan (wst fs0 tmp acc).fs
-      (exec cfg plan i (wst fs0 tmp acc) [.replace src]) := by
+    Post fs0 dst tmp acc cfg plan (wst fs0 tmp acc).fs
+      (exec cfg plan i (wst fs0 tmp acc) [.replace dst]) := by
   have hAB : AB fs0 tmp (wst fs0 tmp acc).fs := Or.inr ⟨acc, rfl⟩
   simp only [exec]
   cases hp : plan i with
   | kill => exact Post.kill i hAB
-  | raise => exact handler_temp i _ _ acc hp h0 rfl rfl
+  | raise => exact handler_temp i _ _ acc (Or.inl hp) h0 rfl rfl
+  | raiseBase => exact base_temp i _ acc hp h0
   | none =>
     have hg : (fs0 ++ [(tmp, acc)]).get? tmp = some acc := Fs.get?_append_self h0
     have he : (fs0 ++ [(tmp, acc)]).erase tmp = fs0 := Fs.erase_append_self h0
@@ -160,102 +328,111 @@ theorem exec_replace (i : Nat) (acc : String) (h0 : fs0.get? tmp = none) :
     · intro j h; cases h
     · intro j h; cases h
     · intro j h; cases h
+    · intro j h; cases h
+    · intro ev hm he
+      simp only [List.mem_singleton] at hm
+      subst hm
+      exact absurd he (Op.label_ne_rm (.replace dst))
 
-/-- `close` then `replace`. -/
-theorem exec_close_replace (i : Nat) (acc : String) (h0 : fs0.get? tmp = none) :
-    Post fs0 src tmp acc cfg plan (wst fs0 tmp acc).fs
-      (exec cfg plan i (wst fs0 tmp acc) [.close, .replace src]) := by
-  have hAB : AB fs0 tmp (wst fs0 tmp acc).fs := Or.inr ⟨acc, rfl⟩
-  rw [exec]
-  cases hp : plan i with
-  | kill => exact Post.kill i hAB
-  | raise => exact handler_temp i _ _ acc hp h0 rfl rfl
-  | none =>
-    simp only [apply]
-    exact Post.cons (exec_replace (i + 1) acc h0) (Or.inl hAB)
+/-- The operations after the write phase: `close`, (StreamRewriter: `closeIn`,) `replace`. -/
+theorem exec_tail (early : Bool) (i : Nat) (acc : String) (h0 : fs0.get? tmp = none) :
+    Post fs0 dst tmp acc cfg plan (wst fs0 tmp acc).fs
+      (exec cfg plan i (wst fs0 tmp acc) (tailOps early dst)) := by
+  cases early with
+  | true =>
+    simp only [tailOps, if_true]
+    exact exec_idop _ _ i acc h0 rfl (exec_replace (i + 1) acc h0)
+  | false =>
+    simp only [tailOps, Bool.false_eq_true, if_false]
+    exact exec_idop _ _ i acc h0 rfl (exec_idop _ _ (i + 1) acc h0 rfl (exec_replace (i + 1 + 1) acc h0))
 
-/-- The write phase: any list of fmt/write operations, then close and replace. -/
-theorem exec_body (body : List Op) (hb : ∀ op ∈ body, op.isBody = true) (h0 : fs0.get? tmp = none) :
+/-- The write phase: any list of fmt/write operations, then the tail. -/
+theorem exec_body (early : Bool) (body : List Op) (hb : ∀ op ∈ body, op.isBody = true)
+    (h0 : fs0.get? tmp = none) :
     ∀ (i : Nat) (acc : String),
-      Post fs0 src tmp (acc ++ newContent body) cfg plan (wst fs0 tmp acc).fs
-        (exec cfg plan i (wst fs0 tmp acc) (body ++ [.close, .replace src])) := by
+      Post fs0 dst tmp (acc ++ newContent body) cfg plan (wst fs0 tmp acc).fs
+        (exec cfg plan i (wst fs0 tmp acc) (body ++ tailOps early dst)) := by
   induction body with
   | nil =>
     intro i acc
-    simpa [newContent] using exec_close_replace (src := src) (cfg := cfg) (plan := plan) i acc h0
+    simpa [newContent] using exec_tail (dst := dst) (cfg := cfg) (plan := plan) early i acc h0
   | cons op rest ih =>
     intro i acc
     have hAB : AB fs0 tmp (wst fs0 tmp acc).fs := Or.inr ⟨acc, rfl⟩
     have hrest : ∀ op ∈ rest, op.isBody = true := fun o ho => hb o (List.mem_cons_of_mem _ ho)
     have hop := hb op List.mem_cons_self
-    rw [List.cons_append, exec]
-    cases hp : plan i with
-    | kill => exact Post.kill i hAB
-    | raise => exact handler_temp i _ _ acc hp h0 rfl rfl
-    | none =>
-      cases op with
-      | fmt n =>
-        simp only [apply, newContent]
-        exact Post.cons (ih hrest (i + 1) acc) (Or.inl hAB)
-      | write n c =>
+    rw [List.cons_append]
+    cases op with
+    | fmt n =>
+      simp only [newContent]
+      exact exec_idop _ _ i acc h0 rfl (ih hrest (i + 1) acc)
+    | write n c =>
+      rw [exec]
+      cases hp : plan i with
+      | kill => exact Post.kill i hAB
+      | raise => exact handler_temp i _ _ acc (Or.inl hp) h0 rfl rfl
+      | raiseBase => exact base_temp i _ acc hp h0
+      | none =>
         have hg : (fs0 ++ [(tmp, acc)]).get? tmp = some acc := Fs.get?_append_self h0
         have hs : (fs0 ++ [(tmp, acc)]).set tmp (acc ++ c) = fs0 ++ [(tmp, acc ++ c)] :=
           Fs.set_append_self h0
         simp only [apply, wst, hg, hs, newContent]
         have := ih hrest (i + 1) (acc ++ c)
         rw [String.append_assoc] at this
-        exact Post.cons this (Or.inl (Or.inr ⟨acc ++ c, rfl⟩))
-      | sameFile => simp [Op.isBody] at hop
-      | openRead _ => simp [Op.isBody] at hop
-      | mkTemp _ => simp [Op.isBody] at hop
-      | openWrite _ _ => simp [Op.isBody] at hop
-      | close => simp [Op.isBody] at hop
-      | replace _ => simp [Op.isBody] at hop
+        exact Post.cons this (Or.inl (Or.inr ⟨acc ++ c, rfl⟩)) (Op.label_ne_rm (.write n c))
+    | sameFile => simp [Op.isBody] at hop
+    | openRead _ => simp [Op.isBody] at hop
+    | closeIn => simp [Op.isBody] at hop
+    | mkTemp _ => simp [Op.isBody] at hop
+    | openWrite _ _ => simp [Op.isBody] at hop
+    | close => simp [Op.isBody] at hop
+    | replace _ => simp [Op.isBody] at hop
+
+/-- `NamedTemporaryFile(dir=…)` and everything after it. -/
+theorem exec_mkTemp (early : Bool) (body : List Op) (hb : ∀ op ∈ body, op.isBody = true)
+    (h0 : fs0.get? tmp = none) (i : Nat) :
+    Post fs0 dst tmp (newContent body) cfg plan fs0
+      (exec cfg plan i { fs := fs0 } (.mkTemp tmp :: (body ++ tailOps early dst))) := by
+  have hA : AB fs0 tmp fs0 := Or.inl rfl
+  rw [exec]
+  cases hp : plan i with
+  | kill => exact Post.kill _ hA
+  | raise => exact handler_noTemp _ _ { fs := fs0 } (Or.inl hp) rfl rfl
+  | raiseBase => exact base_noTemp i _ hp
+  | none =>
+    simp only [apply, Fs.set_fresh h0]
+    refine Post.cons (cur' := fs0 ++ [(tmp, "")]) ?_ (Or.inl (Or.inr ⟨"", rfl⟩)) (Op.label_ne_rm (.mkTemp tmp))
+    have := exec_body (dst := dst) (cfg := cfg) (plan := plan) early body hb h0 (i + 1) ""
+    simpa [wst] using this
 
 /-- The whole in-place operation list from a directory that holds `src` and has no entry `tmp`. -/
-theorem exec_inplace (body : List Op) (hb : ∀ op ∈ body, op.isBody = true)
+theorem exec_inplace (early : Bool) (body : List Op) (hb : ∀ op ∈ body, op.isBody = true)
     (h0 : fs0.get? tmp = none) (hs : (fs0.get? src).isSome) (i : Nat) :
-    Post fs0 src tmp (newContent body) cfg plan fs0
-      (exec cfg plan i { fs := fs0 } (inplaceOps src tmp body)) := by
-  have hA : AB fs0 tmp fs0 := Or.inl rfl
-  simp only [inplaceOps, List.cons_append, List.nil_append]
-  -- sameFile
-  rw [exec]
-  cases hp0 : plan i with
-  | kill => exact Post.kill i hA
-  | raise => exact handler_noTemp i _ { fs := fs0 } hp0 rfl rfl
-  | none =>
-    simp only [apply]
-    refine Post.cons ?_ (Or.inl hA)
-    -- openRead
-    rw [exec]
-    cases hp1 : plan (i + 1) with
-    | kill => exact Post.kill _ hA
-    | raise => exact handler_noTemp _ _ { fs := fs0 } hp1 rfl rfl
-    | none =>
-      have hc : Fs.contains fs0 src = true := by simpa [Fs.contains] using hs
-      simp only [apply, hc, if_true]
-      refine Post.cons ?_ (Or.inl hA)
-      -- mkTemp
-      rw [exec]
-      cases hp2 : plan (i + 1 + 1) with
-      | kill => exact Post.kill _ hA
-      | raise => exact handler_noTemp _ _ { fs := fs0 } hp2 rfl rfl
-      | none =>
-        simp only [apply, Fs.set_fresh h0]
-        refine Post.cons (cur' := fs0 ++ [(tmp, "")]) ?_ (Or.inl (Or.inr ⟨"", rfl⟩))
-        have := exec_body (src := src) (cfg := cfg) (plan := plan) body hb h0 (i + 1 + 1 + 1) ""
-        simpa [wst] using this
+    Post fs0 dst tmp (newContent body) cfg plan fs0
+      (exec cfg plan i { fs := fs0 } (inplaceOps early src dst tmp body)) := by
+  have hc : Fs.contains fs0 src = true := by simpa [Fs.contains] using hs
+  have hopen : apply (.openRead src) { fs := fs0 } = some { fs := fs0 } := by simp [apply, hc]
+  cases early with
+  | true =>
+    simp only [inplaceOps, headOps, if_true, List.cons_append, List.nil_append]
+    exact exec_pre _ _ i rfl (exec_pre _ _ (i + 1) hopen (exec_pre _ _ (i + 1 + 1) rfl
+      (exec_mkTemp true body hb h0 (i + 1 + 1 + 1))))
+  | false =>
+    simp only [inplaceOps, headOps, Bool.false_eq_true, if_false, List.cons_append, List.nil_append]
+    exact exec_pre _ _ i rfl (exec_pre _ _ (i + 1) hopen (exec_mkTemp false body hb h0 (i + 1 + 1)))
 
 /-- Hypotheses of one well-formed in-place rewrite: the source exists, the name the temp file will
     get is not in the directory (NamedTemporaryFile picks an unused name), the body consists of
-    fmt/write operations. -/
-structure WF (fs0 : Fs) (src tmp : String) (body : List Op) : Prop where
+    fmt/write operations; the entry `os.replace` lands on is the source itself, or — the in path's
+    last component being a symlink — the link's entry, which is not a regular file of the directory. -/
+structure WF (fs0 : Fs) (src dst tmp : String) (body : List Op) : Prop where
   srcExists : (fs0.get? src).isSome
   tmpFresh : fs0.get? tmp = none
   bodyOps : ∀ op ∈ body, op.isBody = true
+  dstOk : dst = src ∨ fs0.get? dst = none
+  dstNeTmp : dst ≠ tmp
 
-theorem WF.ne {fs0 : Fs} {src tmp : String} {body : List Op} (wf : WF fs0 src tmp body) : src ≠ tmp := by
+theorem WF.ne {fs0 : Fs} {src dst tmp : String} {body : List Op} (wf : WF fs0 src dst tmp body) : src ≠ tmp := by
   intro h
   have := wf.srcExists
   rw [h, wf.tmpFresh] at this
